@@ -47,7 +47,7 @@ def make_ss_request_job(N, kind, akind, tier, nseg, sizes):
         W = len(sizes)
         prog = ctx.prog
         case = decoders.ss_tcp_cases(prog, [(N, kind, 'Client', False, False)])[0]
-        ex = c05.base_exec(ctx, N, 10, mode='exact')
+        ex = c05.base_exec(ctx, N, 16, mode='exact')
         case.setup(ex)
         ex.cut_loops = []
         c04_salt_cache(ex, N)
@@ -234,11 +234,17 @@ def prove_concat(ctx, ex, p, rel, want, msg, site, replay=None):
     return ctx.prove(ex, p, z3.And(total == wtotal, z3.Implies(z3.ULT(j, wtotal), z3.Select(arr, j) == z3.Select(warr, j))), msg, site, replay=replay)
 
 
-def size_grid(tier):
+def size_grid(tier, legacy=True, nseg=1):
     g = [(1, 64), (37, 5)]
     if tier == 'thorough':
-        # an empty first write makes the 2022 client pad (random length): minutes per job
-        g += [(0, 1), (65494, 1), (65495, 3), (70000, 1), (5, 65501, 2), (0, 1, 1)]
+        if legacy:
+            # chunk payload limit 0x3FFF: first chunk = 7-byte address + 16376 bytes exactly fills it
+            g += [(0, 1), (16376, 1), (16377, 3), (20000, 1), (5, 16383, 2), (0, 1, 1)]
+        else:
+            g += [(65494, 1), (65495, 3), (70000, 1), (5, 65501, 2)]
+            if nseg == 1:
+                # an empty first write makes the 2022 client pad (random length): minutes per job, one segment only
+                g += [(0, 1)]
     return g
 
 
@@ -247,7 +253,7 @@ def jobs(prog, tier):
     for (N, kind) in ((16, 'Aes128Gcm'), (32, 'ChaCha20Poly1305'), (16, 'Aead2022Blake3Aes128Gcm'), (32, 'Aead2022Blake3ChaCha20Poly1305')):
         for akind in (('v4', 'domain') if tier != 'thorough' else ('v4', 'domain', 'v6')):
             for nseg in (1, 2):
-                for sizes in size_grid(tier):
+                for sizes in size_grid(tier, not kind.startswith('Aead2022'), nseg):
                     js.append(('ss request[N=%d,%s,%s,segments=%d,writes=%s]' % (N, kind, akind, nseg, '+'.join(map(str, sizes))), make_ss_request_job(N, kind, akind, tier, nseg, sizes), 1800))
     for akind in ('v4', 'domain'):
         for nseg in (1, 2):
